@@ -106,7 +106,7 @@ func VerifH_S1_Save() {
 			vCover("faulted")
 			vAssert(vImplies(f.injected > 0, err != nil), "fault-propagates")
 			vAssert(vImplies(f.injected == 0, err == nil), "no-fault-no-error")
-			vAssert(f.count <= f.window, "window-covers-all-store-operations")
+			vBound(f.count <= f.window, "window-covers-all-store-operations")
 			return
 		}
 		vAssert(err == nil, "save-no-error")
